@@ -329,6 +329,55 @@ func c17Worker(c *core.Collector, x *Ctx) {
 		stream = append(stream, b...)
 		run(stream, nil, true, "delta")
 		c.Count("delta_stream_packets", int64(n+1))
+		// the same deltas after a FAILED step: a Packet object that just reported "too short" for a cut packet is handed a complete
+		// packet that agrees with the cut one in all but one header byte (a connection dropped mid-packet, numbering restarts)
+		for j := 4; j < hlen; j++ {
+			for _, mask := range []byte{0x01, 0x80, 0xff} {
+				if j == 15 {
+					mask &= 0x0f
+					if mask == 0 {
+						continue
+					}
+				}
+				v := append([]byte{}, b...)
+				v[j] ^= mask
+				// a changed length field changes the packet's extent: give the variant the payload its header announces
+				if j >= hlen-2 {
+					nl := int(v[hlen-2])<<8 | int(v[hlen-1])
+					v = append(v[:hlen], make([]byte, nl)...)
+				}
+				for _, cut := range []int{len(b) - 1, hlen, 17} {
+					if cut <= 0 || cut >= len(b) {
+						continue
+					}
+					c.Eval()
+					w := map[string]any{"kind": "c17", "stream": core.HexCap(v, 4096), "gen": "error-then-delta", "cut_first": core.HexCap(b[:cut], 200)}
+					var bad string
+					if guard(c, func() any { return w }, func() {
+						p := jt1078.NewPacket()
+						if _, err := p.Decode(append([]byte{}, b[:cut]...)); err == nil {
+							return // the cut happens to be a complete shorter packet: not the situation meant here
+						}
+						rem, err := p.Decode(append([]byte{}, v...))
+						q := jt1078.NewPacket()
+						rem2, err2 := q.Decode(append([]byte{}, v...))
+						switch {
+						case (err == nil) != (err2 == nil):
+							bad = "a Packet object that had just reported an error classifies the next data differently from a fresh one"
+						case err == nil && (p.Timestamp != q.Timestamp || p.DataBodyLen != q.DataBodyLen || p.Seq != q.Seq || p.Sim != q.Sim || p.LastIFrameInterval != q.LastIFrameInterval || p.LastFrameInterval != q.LastFrameInterval || !bytes.Equal(p.Body, q.Body) || !bytes.Equal(rem, rem2) || p.DataType != q.DataType || p.LogicChannel != q.LogicChannel):
+							bad = "a Packet object that had just reported an error decodes the next packet differently from a fresh one"
+						}
+					}) {
+						continue
+					}
+					c.Count("error_then_delta_cases", 1)
+					if bad != "" {
+						c.Violate("rtp|state|"+bad, bad, w)
+						return
+					}
+				}
+			}
+		}
 	})
 	// (2) random streams
 	n := c.N(6000, 400000)
